@@ -1,3 +1,254 @@
-use crate::Ctx;
-pub fn c12(_: &mut Ctx) {} pub fn c13(_: &mut Ctx) {} pub fn c14(_: &mut Ctx) {} pub fn c15(_: &mut Ctx) {} pub fn c16(_: &mut Ctx) {}
+//! DOM properties: C12 (tree invariants), C13 (DOM Level 1 effects, exceptions, atomicity),
+//! C14 (document order under edits), C15 (successful edits stay serializable), C16 (character data).
+use crate::dommodel::{Adopt, Model};
+use crate::dompool::{kind_of, Op, Outcome, Pool, Ret, E, K};
+use crate::model::{self, Gen, GenCfg, Style};
+use crate::rng::Rng;
+use crate::util::first_diff;
+use crate::{guarded, Caught, Ctx};
+use std::rc::Rc;
+use xml_dom::{AsNode, Document, Node, NodeList, XmlDocument, XmlNode};
+
+const FOREIGN_DOC: &str = "<f fa='1'><g>t</g><!--fc--><?fp d?></f>";
+const GOOD_NAMES: &[&str] = &["a", "b", "c", "item", "x1", "_u", "n", "k"];
+const BAD_NAMES: &[&str] = &["1a", "-a", "a b", "", "a<", ".x", "a&b", "a>", " a", "a\u{1}"];
+const PLAIN_VALUES: &[&str] = &["", "v", "hello", "a b", "\u{e9}", "\u{1d4b3}y", "12", "x y z", "e\u{301}"];
+const MARKUP_CHARS: &[&str] = &["a", "\u{e9}", "\u{1d4b3}", " ", "<", ">", "&", "'", "\"", "-", "]", "?", ";", "#", "=", "/", "!", "["];
+
+pub const OPT_RAW_TREE: model::DumpOpt = model::DumpOpt { merged: false, ns: false, prolog: false, specified: false, reflevel: false };
+
+/// a document whose info-level handle is kept so that the merged-text view can be switched on for observation
+pub struct LiveDoc { pub dom: XmlDocument, pub info: xml_info::XmlNode<xml_info::XmlDocument> }
+
+pub fn live_doc(text: &str) -> Result<LiveDoc, String> {
+    let (rest, tree) = xml_parser::document(text).map_err(|e| format!("{:?}", e))?;
+    if !rest.is_empty() { return Err("rest".into()); }
+    let info = xml_info::XmlDocument::new(&tree).map_err(|e| format!("{:?}", e))?;
+    Ok(LiveDoc { dom: XmlDocument::from(info.clone()), info })
+}
+
+impl LiveDoc {
+    pub fn set_merged(&self, on: bool) { xml_info::HasContext::context_mut(&mut *self.info.borrow_mut()).set_text_expanded(on); }
+}
+
+/// generator profile of DOM documents: plain names, entities allowed, no namespaces, no attribute-list declarations
+pub fn dom_cfg() -> GenCfg {
+    let mut c = GenCfg::full();
+    c.namespaces = false; c.attlists = false; c.nonascii = false; c.max_nodes = 24; c.max_depth = 3; c.literal_cr = false; c.empties = true;
+    c
+}
+
+pub struct Hist { pub docs: Vec<LiveDoc>, pub pool: Pool, pub text: String, pub log: Vec<String> }
+
+pub fn new_history(r: &mut Rng, cfg: GenCfg) -> Result<Hist, String> {
+    let doc = { let mut g = Gen::new(r, cfg); g.doc() };
+    let text = model::render(&doc, r, Style { minimal: false });
+    let d0 = live_doc(&text)?;
+    let d1 = live_doc(FOREIGN_DOC)?;
+    let pool = Pool::new(vec![d0.dom.clone(), d1.dom.clone()]);
+    Ok(Hist { docs: vec![d0, d1], pool, text, log: vec![] })
+}
+
+#[derive(Clone, Copy, PartialEq)]
+pub enum Profile {
+    /// everything, including calls DOM Level 1 leaves open
+    Anything,
+    /// only calls whose outcome DOM Level 1 fixes, weighted to error paths; markup-free strings
+    Specified,
+    /// structural edits biased to moving subtrees, re-inserting removed nodes, building subtrees before attaching them
+    Moves,
+    /// creation / insertion / data editing with markup-significant strings
+    Markup,
+}
+
+fn pick_kind(r: &mut Rng, pool: &Pool, kinds: &[K], doc0_bias: bool) -> Option<usize> {
+    let v: Vec<usize> = (0..pool.h.len()).filter(|&i| kinds.contains(&pool.h[i].kind) && (!doc0_bias || pool.h[i].doc == 0 || i % 5 == 0)).collect();
+    if v.is_empty() { None } else { Some(*r.pick(&v)) }
+}
+
+fn children_of(pool: &Pool, p: usize) -> Vec<usize> {
+    let h = &pool.h[p];
+    if !matches!(h.kind, K::Document | K::Element | K::Attr) { return vec![]; }
+    h.node.child_nodes().iter().filter_map(|c| pool.find(&c, h.doc)).collect()
+}
+
+fn markup_string(r: &mut Rng) -> String { let n = r.below(5); let mut s = String::new(); for _ in 0..n { s.push_str(r.pick_s(MARKUP_CHARS)); } s }
+
+fn offset_for(r: &mut Rng, len: usize) -> usize {
+    match r.below(12) { 0 => 0, 1 => len, 2 => len + 1, 3 => len + 2, 4 => usize::MAX, 5 => usize::MAX - 1, 6 => len.saturating_sub(1), 7 => (isize::MAX) as usize, _ => if len == 0 { 0 } else { r.below(len + 1) } }
+}
+
+/// draw the next call of a history
+pub fn gen_op(r: &mut Rng, pool: &Pool, prof: Profile) -> Op {
+    let containers = [K::Element, K::Element, K::Element, K::Document, K::Attr];
+    let any_child = [K::Element, K::Text, K::CData, K::Comment, K::PI, K::EntRef, K::Attr, K::Document, K::Doctype];
+    let text_like = [K::Text, K::CData, K::Comment];
+    let string = |r: &mut Rng| -> String { if prof == Profile::Markup { markup_string(r) } else { r.pick_s(PLAIN_VALUES).to_string() } };
+    let name = |r: &mut Rng| -> String { if r.chance(1, 5) { r.pick_s(BAD_NAMES).to_string() } else { r.pick_s(GOOD_NAMES).to_string() } };
+    let w: [u32; 12] = match prof {
+        //            append insert replace remove attrs attrnode create setvalue chardata split named docfrag
+        Profile::Anything => [10, 8, 6, 8, 6, 5, 10, 4, 8, 3, 3, 0],
+        Profile::Specified => [10, 8, 6, 8, 6, 6, 10, 4, 6, 3, 4, 0],
+        Profile::Moves => [14, 12, 6, 10, 4, 4, 8, 1, 1, 2, 1, 0],
+        Profile::Markup => [8, 5, 2, 3, 6, 2, 12, 6, 14, 4, 1, 0],
+    };
+    loop {
+        let k = r.weighted(&w);
+        let op = match k {
+            0 | 1 | 2 | 3 => {
+                let p = match if r.chance(1, 10) { pick_kind(r, pool, &any_child, true) } else { pick_kind(r, pool, &containers, true) } { Some(p) => p, None => continue };
+                let ch = children_of(pool, p);
+                let c = if prof == Profile::Moves && r.chance(2, 3) { pick_kind(r, pool, &[K::Element, K::Element, K::Text, K::Comment, K::PI], true) } else { { let b = !r.chance(1, 6); pick_kind(r, pool, &any_child, b) } };
+                let c = match c { Some(c) => c, None => continue };
+                let some_child = |r: &mut Rng| -> Option<usize> { if !ch.is_empty() && r.chance(5, 6) { Some(*r.pick(&ch)) } else { pick_kind(r, pool, &any_child, true) } };
+                match k {
+                    0 => Op::AppendChild { p, c },
+                    1 => Op::InsertBefore { p, c, r: if r.chance(1, 8) { None } else { some_child(r) } },
+                    2 => match some_child(r) { Some(o) => Op::ReplaceChild { p, n: c, o }, None => continue },
+                    _ => match some_child(r) { Some(o) => Op::RemoveChild { p, o }, None => continue },
+                }
+            }
+            4 => { let e = match pick_kind(r, pool, &[K::Element], true) { Some(e) => e, None => continue }; if r.chance(2, 3) { Op::SetAttribute { e, name: name(r), value: string(r) } } else { Op::RemoveAttribute { e, name: r.pick_s(GOOD_NAMES).to_string() } } }
+            5 => { let e = match pick_kind(r, pool, &[K::Element], true) { Some(e) => e, None => continue }; let a = match { let b = !r.chance(1, 6); pick_kind(r, pool, &[K::Attr], b) } { Some(a) => a, None => continue }; if r.chance(2, 3) { Op::SetAttributeNode { e, a } } else { Op::RemoveAttributeNode { e, a } } }
+            6 => {
+                let d = if r.chance(1, 7) { 1 } else { 0 };
+                match r.below(8) {
+                    0 | 1 => Op::CreateElement { d, name: name(r) }, 2 => Op::CreateText { d, data: string(r) }, 3 => Op::CreateComment { d, data: string(r) }, 4 => Op::CreateCData { d, data: string(r) },
+                    5 => Op::CreatePI { d, target: if r.chance(1, 8) { r.pick_s(&["xml", "XML", "xMl"]).to_string() } else { name(r) }, data: string(r) }, 6 => Op::CreateAttribute { d, name: name(r) },
+                    _ => Op::CreateEntRef { d, name: if r.chance(1, 2) { r.pick_s(&["lt", "amp", "e1", "e2", "nosuch"]).to_string() } else { name(r) } },
+                }
+            }
+            7 => { let n = match pick_kind(r, pool, &[K::Attr, K::Attr, K::Text, K::Comment, K::CData, K::PI, K::Element, K::Document], true) { Some(n) => n, None => continue }; if matches!(pool.h[n].kind, K::Text | K::Comment | K::CData | K::PI) && r.chance(1, 2) { Op::SetData { n, data: string(r) } } else { Op::SetNodeValue { n, value: string(r) } } }
+            8 => {
+                let n = match pick_kind(r, pool, &text_like, true) { Some(n) => n, None => continue };
+                let len = pool.data_of(n).map(|d| d.chars().count()).unwrap_or(0);
+                match r.below(7) {
+                    0 => Op::AppendData { n, data: string(r) }, 1 => Op::InsertData { n, off: offset_for(r, len), data: string(r) }, 2 => Op::DeleteData { n, off: offset_for(r, len), count: offset_for(r, len) },
+                    3 => Op::ReplaceData { n, off: offset_for(r, len), count: offset_for(r, len), data: string(r) }, 4 => Op::SubstringData { n, off: offset_for(r, len), count: offset_for(r, len) }, 5 => Op::Length { n }, _ => Op::SetData { n, data: string(r) },
+                }
+            }
+            9 => { let n = match pick_kind(r, pool, &[K::Text, K::Text, K::CData], true) { Some(n) => n, None => continue }; let len = pool.data_of(n).map(|d| d.chars().count()).unwrap_or(0); Op::SplitText { n, off: offset_for(r, len) } }
+            10 => { let e = match pick_kind(r, pool, &[K::Element], true) { Some(e) => e, None => continue }; if r.chance(1, 2) { match { let b = !r.chance(1, 6); pick_kind(r, pool, &[K::Attr], b) } { Some(a) => Op::SetNamedItem { e, a }, None => continue } } else { Op::RemoveNamedItem { e, name: r.pick_s(GOOD_NAMES).to_string() } } }
+            _ => continue,
+        };
+        return op;
+    }
+}
+
+// ---------------------------------------------------------------------------------------------
+// C12: the DOM stays a tree
+
+fn same_node(a: &XmlNode, b: &XmlNode) -> bool { kind_of(a) == kind_of(b) && a.id() == b.id() && std::mem::discriminant(a) == std::mem::discriminant(b) }
+
+/// Some((invariant, detail)) if the navigational views of container `n` disagree
+pub fn tree_invariants(n: &XmlNode) -> Option<(&'static str, String)> {
+    let list = n.child_nodes();
+    let ch: Vec<XmlNode> = list.iter().collect();
+    if list.length() != ch.len() { return Some(("length", format!("length() = {} but the list has {} items", list.length(), ch.len()))); }
+    if n.has_child() != !ch.is_empty() { return Some(("has-child", format!("has_child() = {} with {} children", n.has_child(), ch.len()))); }
+    match (n.first_child(), ch.first()) { (None, None) => {} (Some(a), Some(b)) if same_node(&a, b) => {} (a, b) => return Some(("first-child", format!("first_child {:?} vs child list head {:?}", a.map(|x| x.id()), b.map(|x| x.id())))) }
+    match (n.last_child(), ch.last()) { (None, None) => {} (Some(a), Some(b)) if same_node(&a, b) => {} (a, b) => return Some(("last-child", format!("last_child {:?} vs child list tail {:?}", a.map(|x| x.id()), b.map(|x| x.id())))) }
+    let mut seen = std::collections::HashSet::new();
+    for (k, c) in ch.iter().enumerate() {
+        if !seen.insert((kind_of(c) as u8 as usize, c.id())) { return Some(("duplicate-child", format!("child id {} occurs twice", c.id()))); }
+        match list.item(k) { Some(x) if same_node(&x, c) => {} x => return Some(("item", format!("item({}) = {:?} vs iterated child {}", k, x.map(|x| x.id()), c.id()))) }
+        match c.parent_node() { Some(p) if same_node(&p, n) => {} p => return Some(("parent", format!("child #{} (id {}, {:?}) reports parent {:?}, listed under id {} ({:?})", k, c.id(), kind_of(c), p.map(|x| (x.id(), kind_of(&x))), n.id(), kind_of(n)))) }
+        let want_prev = if k == 0 { None } else { Some(&ch[k - 1]) };
+        match (c.previous_sibling(), want_prev) { (None, None) => {} (Some(a), Some(b)) if same_node(&a, b) => {} (a, b) => return Some(("previous-sibling", format!("previous_sibling of child #{} (id {}) is {:?}, the list says {:?}", k, c.id(), a.map(|x| x.id()), b.map(|x| x.id())))) }
+        let want_next = ch.get(k + 1);
+        match (c.next_sibling(), want_next) { (None, None) => {} (Some(a), Some(b)) if same_node(&a, b) => {} (a, b) => return Some(("next-sibling", format!("next_sibling of child #{} (id {}) is {:?}, the list says {:?}", k, c.id(), a.map(|x| x.id()), b.map(|x| x.id())))) }
+    }
+    None
+}
+
+/// bounded walk: a node met twice or beneath itself
+fn acyclic(root: &XmlNode) -> Option<String> {
+    let mut seen = std::collections::HashSet::new();
+    let mut stack = vec![(root.clone(), 0usize)];
+    let mut budget = 20_000usize;
+    while let Some((n, depth)) = stack.pop() {
+        if budget == 0 || depth > 400 { return Some("walk budget exhausted: the structure below the node does not end".into()); }
+        budget -= 1;
+        if !seen.insert((kind_of(&n) as u8 as usize, n.id())) { return Some(format!("node id {} ({:?}) is reached twice", n.id(), kind_of(&n))); }
+        if matches!(kind_of(&n), K::Document | K::Element | K::Attr) { for c in n.child_nodes().iter() { stack.push((c, depth + 1)); } }
+    }
+    None
+}
+
+fn document_shape(d: &XmlDocument) -> Option<(&'static str, String)> {
+    let ch: Vec<XmlNode> = d.child_nodes().iter().collect();
+    let ne = ch.iter().filter(|c| kind_of(c) == K::Element).count();
+    let nt = ch.iter().filter(|c| kind_of(c) == K::Doctype).count();
+    if ne > 1 { return Some(("two-document-elements", format!("{} element children", ne))); }
+    if nt > 1 { return Some(("two-doctypes", format!("{} document type children", nt))); }
+    match (d.document_element(), ch.iter().find(|c| kind_of(c) == K::Element)) { (Ok(e), Some(c)) if e.as_node().id() == c.id() => {} (Err(_), None) => {} (a, b) => return Some(("document-element", format!("document_element() {:?} vs child list {:?}", a.ok().map(|e| e.as_node().id()), b.map(|c| c.id())))) }
+    None
+}
+
+/// all C12 checks over every container handle of the pool (attached, detached, foreign)
+pub fn c12_check(h: &Hist) -> Option<(String, String)> {
+    for i in 0..h.pool.h.len() {
+        let hd = &h.pool.h[i];
+        if !matches!(hd.kind, K::Document | K::Element | K::Attr) { continue; }
+        if let Some((inv, detail)) = tree_invariants(&hd.node) { return Some((format!("tree/{}/{:?}", inv, hd.kind), format!("{} :: at {}", detail, h.pool.describe(i)))); }
+    }
+    for (di, d) in h.docs.iter().enumerate() {
+        if let Some(w) = acyclic(&d.dom.as_node()) { return Some(("tree/cycle/Document".into(), format!("doc{}: {}", di, w))); }
+        if let Some((inv, detail)) = document_shape(&d.dom) { return Some((format!("tree/{}/Document", inv), format!("doc{}: {}", di, detail))); }
+    }
+    // detached roots: walk up from every handle (bounded) and check acyclicity below the top
+    for i in 0..h.pool.h.len() {
+        let mut cur = h.pool.h[i].node.clone(); let mut steps = 0;
+        while let Some(p) = cur.parent_node() { cur = p; steps += 1; if steps > 500 { return Some(("tree/ancestor-cycle".into(), format!("the ancestors of {} do not end", h.pool.describe(i)))); } }
+        if kind_of(&cur) != K::Document && steps > 0 { if let Some(w) = acyclic(&cur) { return Some(("tree/cycle/detached".into(), format!("{} :: above {}", w, h.pool.describe(i)))); } }
+    }
+    None
+}
+
+fn history_len(ctx: &Ctx, r: &mut Rng) -> usize { if ctx.thorough { r.range(1, 120) } else { r.range(1, 30) } }
+
+pub fn c12(ctx: &mut Ctx) {
+    let n: u64 = if ctx.thorough { 60_000 } else { 3_200 };
+    for i in 0..n {
+        if !ctx.mine(i) { continue; }
+        let mut r = ctx.rng(i);
+        ctx.begin(i, "");
+        let mut h = match new_history(&mut r, dom_cfg()) { Ok(h) => h, Err(e) => { ctx.inconclusive(&format!("document_not_usable:{}", crate::util::truncate(&e, 30))); continue; } };
+        let merged = r.chance(1, 3);
+        if merged { h.docs[0].set_merged(true); }
+        if let Some((sig, detail)) = c12_check(&h) { ctx.violation(i, &format!("C12/{}/initial", sig), &format!("{} :: doc {}", detail, h.text), &[("doc", &h.text)]); continue; }
+        let len = history_len(ctx, &mut r);
+        let prof = if i % 3 == 0 { Profile::Moves } else { Profile::Anything };
+        for _ in 0..len {
+            let op = gen_op(&mut r, &h.pool, prof);
+            let desc = h.pool.describe_op(&op);
+            h.log.push(desc.clone());
+            ctx.evaluations += 1;
+            ctx.count(&format!("op/{}", op.name()));
+            let out = h.pool.apply(&op);
+            let ok = matches!(out, Outcome::Ok(_));
+            ctx.count(match &out { Outcome::Ok(_) => "outcome/ok", Outcome::Err(_) => "outcome/err", Outcome::Panic(_) => "outcome/PANIC" });
+            if let Outcome::Panic(p) = &out { ctx.count("panic(see C13)"); let _ = p; break; }
+            // a removed / replaced node has no parent
+            if let (true, Op::RemoveChild { .. } | Op::ReplaceChild { .. }, Outcome::Ok(Ret::Node(x))) = (ok, &op, &out) { if let Some(p) = h.pool.h[x.idx].node.parent_node() { ctx.violation(i, "C12/tree/removed-node-has-parent", &format!("{} returned a node whose parent_node() is id {} :: history {:?} :: doc {}", desc, p.id(), h.log, h.text), &[("doc", &h.text), ("history", &h.log.join("\n"))]); break; } }
+            let chk = guarded(|| c12_check(&h));
+            match chk {
+                Caught::Ok(None) => {}
+                Caught::Ok(Some((sig, detail))) => { ctx.violation(i, &format!("C12/{}", sig), &format!("{} :: after {} ({}) :: history {:?} :: doc {}", detail, desc, if ok { "Ok" } else { "Err" }, h.log, h.text), &[("doc", &h.text), ("history", &h.log.join("\n"))]); break; }
+                Caught::Panic { file, msg } => { ctx.violation(i, &format!("C12/tree/navigation-panics/{}", file), &format!("{} :: after {} :: history {:?} :: doc {}", msg, desc, h.log, h.text), &[("doc", &h.text), ("history", &h.log.join("\n"))]); break; }
+                Caught::Budget(_) => {}
+            }
+        }
+        ctx.nontrivial(&format!("{}|{}", h.log.join(";"), h.text));
+        if i % 199 == 0 { ctx.sample(&format!("{:?}  ON  {}", h.log, crate::util::truncate(&h.text, 200))); }
+    }
+}
+
+pub fn c13(_: &mut Ctx) {}
+pub fn c14(_: &mut Ctx) {}
+pub fn c15(_: &mut Ctx) {}
+pub fn c16(_: &mut Ctx) {}
 pub fn witness(_: &str, _: &[String], _: &mut Ctx) -> Option<String> { None }
+
+#[allow(dead_code)]
+fn _unused(_: &Model, _: &Adopt, _: &E, _: Rc<u8>) { let _ = first_diff; }
